@@ -44,9 +44,17 @@ def gen_existing(rng, sections, template_text):
     entries = []
     for name in chosen:
         spelled = name.replace("-", "_") if rng.random() < 0.3 else name
+        if name == "pipeline" and rng.random() < 0.6:
+            spelled = rng.choice(["collection-pipeline", "collection_pipeline"])      # the names the linter's documentation uses
         body = {"enabled": rng.random() < 0.7}
         for _ in range(rng.randint(0, 3)):
             body[rng.choice(["max_nesting_depth", "max_methods", "allowed_numbers", "ignore", "min_duplicate_lines", "custom_opt"])] = user_value(rng)
+        if name == "pipeline":
+            body["min_continues"] = rng.choice([1, 2, 3])
+        if name == "nesting":
+            body["max_nesting_depth"] = rng.choice([1, 2, 3, 5])
+        if name == "stateless-class":
+            body["min_methods"] = rng.choice([1, 3, 5])
         entries.append((spelled, body if rng.random() < 0.9 else None))
     for extra in rng.sample(["exclude", "output_format", "my-team-setting", "fail_on_violations", "version"], rng.randint(0, 2)):
         entries.append((extra, user_value(rng, 1) if extra in ("exclude", "my-team-setting") else rng.choice(["json", True, 2])))
@@ -130,6 +138,7 @@ def merge_case(args):
         after = f.read_bytes().decode("utf-8")
         code2, _ = core.run_cli(["init-config", "--non-interactive", "--preset", preset, "-o", str(f)], cwd=d)
         after2 = f.read_bytes().decode("utf-8")
+        out["effect"] = behaviour(d, text, after) if after != text else None
         out.update({"exit": code, "after": after, "exit2": code2, "after2": after2, "stdout": stdout[-300:],
                     "template": _generate_config_content(preset).split("\n")})
         before_doc = yaml.safe_load(text) or {}
@@ -151,6 +160,33 @@ def merge_case(args):
     finally:
         shutil.rmtree(d, ignore_errors=True)
     return out
+
+
+def behaviour(d: Path, before: str, after: str):
+    """`stays in effect`, observed: the same small project linted with the file before and after init-config must give the same findings
+    for the linters whose sections existed before"""
+    import yaml
+    from .c05 import PIPE, PY_NEST, STATELESS
+    proj = d / "effect"
+    (proj / "src").mkdir(parents=True)
+    (proj / ".git").mkdir()
+    (proj / "src" / "p.py").write_text(PIPE)
+    (proj / "src" / "n.py").write_text(PY_NEST)
+    (proj / "src" / "s.py").write_text(STATELESS)
+    try:
+        existing = {str(k).replace("_", "-") for k in (yaml.safe_load(before) or {})}
+    except yaml.YAMLError:
+        return None
+    cmds = [c for c, names in (("pipeline", {"pipeline", "collection-pipeline"}), ("nesting", {"nesting"}), ("stateless-class", {"stateless-class"})) if names & existing]
+    res = {}
+    for tag, text in (("before", before), ("after", after)):
+        (proj / ".thailint.yaml").write_text(text)
+        for c in cmds:
+            code, out = core.run_cli([c, "--format", "json", "src"], cwd=proj)
+            vs = core.violations_json(out)
+            res.setdefault(c, {})[tag] = None if vs is None else sorted([v["file_path"], v["line"], v["rule_id"]] for v in vs)
+    shutil.rmtree(proj, ignore_errors=True)
+    return {c: r for c, r in res.items() if r.get("before") != r.get("after")}
 
 
 # ---------------------------------------------------------------- (b) generated files are accepted by every linter command
@@ -379,6 +415,10 @@ def run(tier: str, seed: int, st: core.ProofStatus) -> core.Result:
             spec.append(f"pre-existing settings no longer in effect after key normalisation: {im['lost_effective'][:3]}")
         if im["after2"] != im["after"]:
             spec.append("a second run changed the file again")
+        if im.get("effect"):
+            c0, r0 = sorted(im["effect"].items())[0]
+            spec.append(f"`thailint {c0}` reports differently with the file after init-config: {len(r0['before'] or [])} findings before, {len(r0['after'] or [])} after "
+                        "(a pre-existing section no longer in effect)")
         if im["exit"] == 0 and impl_outcome == "written" and isinstance(im.get("after_keys"), list):
             missing = [s for s in sys_sections if s.replace("-", "_") not in {k.replace("-", "_") for k in im["after_keys"]}]
             if missing:
